@@ -45,7 +45,8 @@ VARIABLES grp,      \* the group exists
           pull,     \* relay pull module
           clock,    \* abstract time: number of auto-stop windows that have elapsed
           nticks,
-          push,     \* relay push per target: idle | conn (connecting) | att (attached); patt = connection attempts seen
+          push,     \* relay push per target: [s: idle | conn (connecting) | att (attached), n: length of the URL parameters the
+                    \* connection being set up carries]; patt = connection attempts seen
           patt,
           down,     \* the server has been shut down (ServerManager.Dispose): nothing happens any more
           idl,      \* idle check per session (BasicSessionStat.staleStat): new (never checked) | moved | still
@@ -55,13 +56,14 @@ VARIABLES grp,      \* the group exists
 vars == <<grp, inp, owner, ss, closed, nh, pull, clock, nticks, push, patt, down, idl, nsweeps, act>>
 View == <<grp, inp, owner, ss, closed, nh, pull, clock, nticks, push, patt, down, idl, nsweeps>>
 
+PIdle == [s |-> "idle", n |-> 0]
 PullInit == [api |-> FALSE, flying |-> FALSE, att |-> FALSE, n |-> 0, lastOut |-> 0, attempts |-> 0, gen |-> 0]
 
 Init == /\ grp = FALSE /\ inp = "" /\ owner = ""
         /\ ss = [x \in Sessions |-> "idle"] /\ closed = [x \in Sessions |-> FALSE]
         /\ nh = [x \in Sessions |-> "none"]
         /\ pull = PullInit /\ clock = 0 /\ nticks = 0 /\ down = FALSE
-        /\ push = [t \in PushTargets |-> "idle"] /\ patt = 0
+        /\ push = [t \in PushTargets |-> PIdle] /\ patt = 0
         /\ idl = [x \in Sessions |-> "new"] /\ nsweeps = 0
         /\ act = [name |-> "init"]
 
@@ -97,13 +99,15 @@ ObsP(ret, notif, hook, p) == [ret |-> ret, notif |-> notif, hook |-> hook, attem
 \* relay push (group__relay_push.go): startPushIfNeeded starts one connection per idle target while an
 \* RTMP or RTSP publisher is the input (on its arrival and on every tick)
 Pushable(i) == i \in NetPubs
-\* a connection being set up carries the URL parameters of the RTMP publisher it was started under ("connp")
-Conn(s) == s \in {"conn", "connp"}
-StartPush(pu, i) == IF Pushable(i) THEN [t \in PushTargets |-> IF pu[t] = "idle" THEN (IF i \in RtmpPubs THEN "connp" ELSE "conn") ELSE pu[t]] ELSE pu
-NStarted(pu, i) == IF Pushable(i) THEN Cardinality({t \in PushTargets : pu[t] = "idle"}) ELSE 0
+\* a connection being set up carries the URL parameters of the RTMP publisher it was started under; every RTMP
+\* publisher has parameters of its own (the driver derives the same length from the session id)
+PLenOf(i) == IF i \in RtmpPubs /\ ParamLen > 0 THEN ParamLen + 7 * (Len(i) - 2) ELSE 0
+Conn(p) == p.s = "conn"
+StartPush(pu, i) == IF Pushable(i) THEN [t \in PushTargets |-> IF pu[t].s = "idle" THEN [s |-> "conn", n |-> PLenOf(i)] ELSE pu[t]] ELSE pu
+NStarted(pu, i) == IF Pushable(i) THEN Cardinality({t \in PushTargets : pu[t].s = "idle"}) ELSE 0
 \* stopPushIfNeeded (delIn): attached push sessions are closed; connections still being set up are not touched
-StopPush(pu) == [t \in PushTargets |-> IF pu[t] = "att" THEN "idle" ELSE pu[t]]
-NAtt(pu) == Cardinality({t \in PushTargets : pu[t] = "att"})
+StopPush(pu) == [t \in PushTargets |-> IF pu[t].s = "att" THEN PIdle ELSE pu[t]]
+NAtt(pu) == Cardinality({t \in PushTargets : pu[t].s = "att"})
 
 ---------------------------------------------------------------------------
 NewPub(x) ==
@@ -351,7 +355,7 @@ Halt == /\ down /\ act.name # "Halt" /\ act' = [name |-> "Halt"]
         /\ UNCHANGED <<grp, inp, owner, ss, closed, nh, pull, clock, nticks, push, patt, down, idl, nsweeps>>
 \* what a step of the session bookkeeping does to relay push
 PushFx ==
-  IF grp /\ ~grp' THEN push' = [t \in PushTargets |-> "idle"] /\ patt' = patt          \* group removed
+  IF grp /\ ~grp' THEN push' = [t \in PushTargets |-> PIdle] /\ patt' = patt          \* group removed
   ELSE IF inp # "" /\ inp' = "" THEN push' = StopPush(push) /\ patt' = patt              \* delIn
   ELSE IF (inp' # inp /\ Pushable(inp')) \/ (act'.name = "Tick" /\ grp')                 \* addIn / Group.Tick
     THEN push' = StartPush(push, inp') /\ patt' = patt + NStarted(push, inp')
@@ -361,17 +365,17 @@ PushFx ==
 \* RTSP publisher is (still) the input, otherwise it is closed again
 PushOk(t) ==
   /\ Conn(push[t])
-  /\ push' = [push EXCEPT ![t] = IF Pushable(inp) THEN "att" ELSE "idle"]
+  /\ push' = [push EXCEPT ![t] = IF Pushable(inp) THEN [s |-> "att", n |-> 0] ELSE PIdle]
   /\ act' = [name |-> "PushOk", x |-> t,
              obs |-> Obs(IF Pushable(inp) THEN "ok" ELSE "late", <<>>, <<>>),
-             plen |-> IF push[t] = "connp" THEN ParamLen ELSE 0]
+             plen |-> push[t].n]
 PushFail(t) ==
   /\ Conn(push[t])
-  /\ push' = [push EXCEPT ![t] = "idle"]
+  /\ push' = [push EXCEPT ![t] = PIdle]
   /\ act' = [name |-> "PushFail", x |-> t, obs |-> Obs("ok", <<>>, <<>>)]
 PushEnd(t) ==
-  /\ push[t] = "att"
-  /\ push' = [push EXCEPT ![t] = "idle"]
+  /\ push[t].s = "att"
+  /\ push' = [push EXCEPT ![t] = PIdle]
   /\ act' = [name |-> "PushEnd", x |-> t, obs |-> Obs("ok", <<>>, <<>>)]
 PushStep == /\ \E t \in PushTargets : PushOk(t) \/ PushFail(t) \/ PushEnd(t)
             /\ patt' = patt
@@ -439,7 +443,7 @@ NotifyPaired ==
 \* C17: an attempt is in flight only while the module says so; never while an input is attached by it
 PullSane == /\ (pull.att => pull.flying) /\ (pull.att => inp = "pull")
 \* C17: relay push is attached only while an RTMP / RTSP publisher is the input (it ends with the publisher)
-PushSane == \A t \in PushTargets : push[t] = "att" => Pushable(inp)
+PushSane == \A t \in PushTargets : push[t].s = "att" => Pushable(inp)
 \* C16: a group with nothing left is removed by the next tick (checked as: an inactive group never survives a Tick)
 EmptyRemovedAct == [][(act'.name = "Tick" /\ grp /\ Inactive) => ~grp']_vars
 
